@@ -473,7 +473,7 @@ theorem C17_stale_backlink_current_tree :
   every spelling of a request is a `Chain`; the bodies of the builder methods are regenerated tables
   (`treeBuilder`, extract/gen_c17_builder.go) interpreted by `Chain.record`. -/
 
-open BldL
+open BldL CbB
 
 /-- the builder API of the tree under check (regenerated): every starter zeroes all fields but its own, every chain
     method and finisher keeps every field it does not set, finishers append their receiver once and return
@@ -503,6 +503,13 @@ example : (Chain.mk (.after "x") [.before "y"] (.register "n" 1)).record treeBui
           (Chain.mk (.before "y") [.after "x"] (.register "n" 1)).record treeBuilder ∧
           (Chain.mk (.mtch (some true)) [.before "q", .after "x", .after "", .before "y", .after "x"] (.register "n" 1)).lastBefore = "y" := by
   decide
+
+/-- `b := p.Before(x); b.After(y); b.Register(n, f)` -- the values returned by the chain methods thrown away: as long
+    as the chain methods mutate their receiver (the pinned tree) that registers what the chained spelling registers -/
+theorem C17_dropped_results_same_when_mutating (T : BuilderFacts) (hT : Canon T)
+    (hb : T.beforeFresh = false) (ha : T.afterFresh = false) (ch : Chain) :
+    ch.recordDropped T = ch.request := by
+  rw [recordDropped_eq T hT hb ha, record_eq T hT]
 
 /-- a tree whose `Before` returns a fresh builder that forgets `after` (the other fields kept) is NOT canonical and
     the order of the calls matters there: `After(x).Before(y)` loses `After(x)` -/
